@@ -25,7 +25,7 @@ Clauses
                               w.r.t. the proposal's; self-normalised form where it is exact (density proportional to proposal)
     C19.enum.exact            EnumerateEstimator: the returned value IS the expectation, its gradient the exact gradient
     C19.relax.value_mean      StraightThroughEstimator / RelaxEstimator on LogisticBernoulli and GumbelOneHotCategorical:
-                              quadrature mean of the value (and, for RELAX on LogisticBernoulli, of the gradient)
+                              quadrature mean of the value (and, for RELAX, of the gradient w.r.t. the parameters)
     C19.mh.accept_all         IMH with proposal == target: every proposal accepted, plain post-burn-in average, drawn or supplied start
     C19.lb.threshold_csample  LogisticBernoulli: threshold(csample(b)) == b
     C19.lb.density_factor     LogisticBernoulli: log_prob(z) == tlog_prob(H(z)) + clog_prob(z, H(z)); clog_prob(z, b != H(z)) == -inf;
@@ -676,7 +676,7 @@ def cases_enum(ctx):
                             for kappa in (0.0, 0.3):
                                 yield {"fam": fam, "par": par, "theta": theta, "f": f, "log": log, "kappa": kappa}
     tmax = 5 if quick else 8
-    for total in range(0, tmax + 1):
+    for total in range(1, tmax + 1):  # vectors of length 0: see C19.dist.support / C19.srswor.cardinality (KF-C19-4, KF-C19-5), recorded at their sites
         for given in range(0, total + 1):
             for out in (None, total, total + 1, total + 3):
                 for nb in (0, 2):
@@ -748,6 +748,8 @@ def _gl(a, b, G, smooth=False):
     end-point singularities (still a quadrature rule for the uniform measure: weights sum to b-a)"""
     from numpy.polynomial.legendre import leggauss
 
+    if smooth and G < 3:
+        raise AssertionError("driver: the smoothed rule needs G >= 3 to integrate constants exactly")
     x, w = leggauss(G)
     out = []
     for xi, wi in zip(x.tolist(), w.tolist()):
@@ -970,9 +972,9 @@ def cases_relax(ctx):
                         for tabs in _lb_tables(n, log, True)[:2]:
                             yield {"dist": "lb", "est": "st", "n": n, "par": "probs", "theta": [j / 8.0 for j in combo], "M": M, "f": tabs, "log": log, "rule": {"kind": "mid", "K": 8}, "tol": 1e-9}
     # --- RELAX on LogisticBernoulli: value and gradient
-    plans = [(1, 1, [-3.0, -2.0, -1.0, 0.0, 0.7, 2.0, 3.0], 16, 24, 1e-6), (1, 2, [-1.5, 0.0, 0.8], 8, 12, 1e-3), (2, 1, [-1.5, 0.0, 0.8], 8, 12, 1e-3)]
+    plans = [(1, 1, [-3.0, -2.0, -1.0, 0.0, 0.7, 2.0, 3.0], 16, 24, 2e-5), (1, 2, [-1.5, 0.0, 0.8], 8, 12, 2e-4), (2, 1, [-1.5, 0.0, 0.8], 8, 12, 2e-4)]
     if not quick:
-        plans += [(1, 3, [-1.0, 0.5], 6, 8, 1e-2), (3, 1, [-1.0, 0.5], 6, 8, 1e-2), (2, 1, [-2.0, 1.5], 12, 16, 2e-4), (1, 2, [-2.0, 1.5], 12, 16, 2e-4)]
+        plans += [(1, 3, [-1.0, 0.5], 4, 6, 1e-2), (3, 1, [-1.0, 0.5], 4, 6, 1e-2), (2, 1, [-2.0, 1.5], 12, 16, 2e-4), (1, 2, [-2.0, 1.5], 12, 16, 2e-4)]
     for n, M, grid, Gu, Gv, tol in plans:
         for combo in itertools.product(grid, repeat=n):
             th0 = [x + 0.1 * i for i, x in enumerate(combo)]
@@ -992,20 +994,734 @@ def cases_relax(ctx):
             for log in (False, True):
                 for k in range(2):
                     f = [0.3 + 0.2 * k, 0.9 - 1.1 * k] if not log else [0.3 - 0.5 * k, 0.9]
-                    yield {"dist": "gumbel", "est": "st", "par": par, "theta": theta, "f": f, "log": log, "rule": {"Go": 2 * Go, "Gi": 2, "Gv": 0}, "tol": 1e-5}
+                    yield {"dist": "gumbel", "est": "st", "par": par, "theta": theta, "f": f, "log": log, "rule": {"Go": 2 * Go, "Gi": 4, "Gv": 0}, "tol": 1e-5}
                     for cv in (CVS_LOG if log else CVS):
                         yield {"dist": "gumbel", "est": "relax", "par": par, "theta": theta, "f": f, "log": log, "cv": cv, "rule": {"Go": Go, "Gi": Gi, "Gv": Gv}, "tol": 2e-3, "grad": True}
 
 
-CHECKERS = {"C19.direct.unbiased_grad": check_direct, "C19.is.unbiased_grad": check_is, "C19.enum.exact": check_enum, "C19.relax.value_mean": check_relax}
-FINDINGS = []
-KNOWN_MATCH = {}
+# ---------------------------------------------------------------------------------------------
+# C19.mh.accept_all
+
+
+def check_mh(case):
+    """case: {fam, par, theta, N (mc_samples), burn, init: drawn|given|given1 (given1: with the leading singleton dimension),
+    same: object (density IS the proposal) | equal (separately built, same parameters) | unnorm (proposal shifted by 0.7 nats),
+    u: H|L|A|seed:<k> (uniform draws: all 1-2^-24 / all 0 / alternating / real generator), log, f: table}.
+    Every chain over the sample space of length N (+1 when the start is drawn) is laid out along the batch dimension."""
+    torch = _torch()
+    import pydrobert.torch.estimators as E
+
+    fam, par, theta, N, burn, init, log = case["fam"], case["par"], case["theta"], case["N"], case["burn"], case["init"], case["log"]
+    sizes, probs, _ = _marginals(fam, par, theta)
+    space = _space(sizes)
+    L = N + 1  # position 0 is the start (drawn or supplied)
+    chains = list(itertools.product(range(len(space)), repeat=L))
+    D = len(chains)
+    steps = [_encode(fam, sizes, [space[c[k]] for c in chains]) for k in range(L)]  # each (D, *event)
+    leaf = _leaf(fam, theta)
+    prop = _build(fam, par, leaf.detach(), D)
+    calls = {"n": 0}
+    first = 0 if init == "drawn" else 1
+
+    def sample(sample_shape=torch.Size()):
+        if tuple(sample_shape) != (1,):
+            raise AssertionError("driver: chain step asked for sample_shape %s" % (tuple(sample_shape),))
+        k = first + calls["n"]
+        calls["n"] += 1
+        if k >= L:
+            raise AssertionError("more proposals drawn than mc_samples%s" % (" + 1" if init == "drawn" else ""))
+        return steps[k].unsqueeze(0).clone()
+
+    prop.sample = sample
+    if case["same"] == "object":
+        dens = prop
+    elif case["same"] == "equal":
+        dens = _build(fam, par, _leaf(fam, theta).detach(), D)
+    else:
+        dens = _Shifted(prop, 0.7)
+    raw, lin = _tab(case["f"], log)
+    ftab = torch.tensor(raw, dtype=torch.float64)
+    idx = _indexer(fam, sizes)
+    kw = {}
+    if init == "given":
+        kw["initial_sample"] = steps[0].clone()
+    elif init == "given1":
+        kw["initial_sample"] = steps[0].unsqueeze(0).clone()
+    est = E.IndependentMetropolisHastingsEstimator(prop, lambda b: ftab[idx(b)], N, dens, burn, is_log=log, **kw)
+    u = case["u"]
+    if u.startswith("seed:"):
+        torch.manual_seed(int(u[5:]))
+        v = est()
+    else:
+        if u == "A":
+            ut = torch.zeros(N * D, dtype=torch.float32)
+            ut[::2] = U32_MAX
+            ut = ut.reshape(N, D)
+        else:
+            ut = torch.full((N, D), U32_MAX if u == "H" else 0.0, dtype=torch.float32)
+        with _noise([ut]):
+            v = est()
+    if calls["n"] != L - first:
+        return "%d proposals drawn, expected %d" % (calls["n"], L - first)
+    v = _per_draw(v, D)
+    if isinstance(v, str):
+        return v
+    got = (v.exp() if log else v).tolist()
+    for d, c in enumerate(chains):
+        kept = [lin[_index(space[c[k]], sizes)] for k in range(1 + burn, L)]  # every proposal accepted: chain state n is proposal n
+        want = math.fsum(kept) / len(kept)
+        if not _close(got[d], want):
+            return "chain start=%s proposals=%s: returned %s, plain average of f over proposals %d..%d is %s" % (
+                space[c[0]], [space[j] for j in c[1:]], _fmt(got[d]), burn + 1, N, _fmt(want))
+    return None
+
+
+def cases_mh(ctx):
+    quick = ctx.quick
+    fams = [("bern", 1, 2), ("bern", 2, 2), ("onehot", 1, 3), ("cat", 1, 3)] + ([] if quick else [("bern", 3, 2), ("onehot", 2, 2), ("cat", 1, 4)])
+    for fam, nvar, V in fams:
+        S = V ** nvar
+        CATV.setdefault(4, [[0.0, 0.0, 0.0, 0.0], [0.5, -1.0, 0.3, 1.1]])
+        th0s = list(_thetas(fam, nvar, V, True))
+        th0s = th0s[:: max(1, len(th0s) // 3)][:3]
+        for N in range(1, (3 if S <= 3 or not quick else 2) + 1 + (0 if quick else 1)):
+            if S ** (N + 1) > 5000:
+                continue
+            for burn in range(N):
+                for th0 in th0s:
+                    for par in ("logits", "probs"):
+                        theta = _to_par(fam, par, th0)
+                        for init in ("drawn", "given", "given1"):
+                            for same in ("object", "equal", "unnorm"):
+                                for u in ("H", "L", "A", "seed:%d" % ctx.seed, "seed:%d" % (ctx.seed + 1)) + (() if quick else tuple("seed:%d" % (ctx.seed + k) for k in range(2, 8))):
+                                    for log in (False, True):
+                                        yield {"fam": fam, "par": par, "theta": theta, "N": N, "burn": burn, "init": init, "same": same, "u": u, "log": log,
+                                               "f": _gen_table(S, N + burn, log)}
+
+
+# ---------------------------------------------------------------------------------------------
+# C19.lb.* / C19.gumbel.*: relaxed distributions
+
+
+def _noise_values(K, dtype):
+    """values a uniform generator on [0, 1) can return (0, tiny, the largest below 1) and a midpoint grid"""
+    top = [U32_MAX, 1.0 - 2.0 ** -20, 1.0 - 2.0 ** -12] + ([U64_MAX, 1.0 - 2.0 ** -40] if dtype == "float64" else [])
+    low = [0.0, 2.0 ** -149 if dtype == "float32" else 5e-324, 2.0 ** -126, 2.0 ** -60] + [2.0 ** -k for k in range(10, 25)]
+    return sorted(set(low + top + [(j + 0.5) / K for j in range(K)] + [0.5]))
+
+
+def _dt(name):
+    torch = _torch()
+    return {"float32": torch.float32, "float64": torch.float64}[name]
+
+
+def check_lb_threshold(case):
+    """case: {par, theta: [values], dtype, K}: for every parameter, every noise value and both b: threshold(csample(b)) == b, csample finite"""
+    torch = _torch()
+    import pydrobert.torch.distributions as PD
+
+    dt = _dt(case["dtype"])
+    vals = _noise_values(case["K"], case["dtype"])
+    P, Kn = len(case["theta"]), len(vals)
+    param = torch.tensor(case["theta"], dtype=dt).unsqueeze(-1).expand(P, Kn)
+    dist = PD.LogisticBernoulli(**{case["par"]: param})
+    noise = torch.tensor(vals, dtype=torch.float64).to(dt).unsqueeze(0).expand(P, Kn)
+    for bval in (0.0, 1.0):
+        b = torch.full((P, Kn), bval, dtype=dt)
+        with _noise([], [noise]):
+            z = dist.csample(b)
+        if not torch.isfinite(z).all():
+            i, j = [int(x) for x in (~torch.isfinite(z)).nonzero()[0]]
+            return "csample(b=%d) with %s=%r, noise=%r is %r (not in the support)" % (bval, case["par"], case["theta"][i], vals[j], float(z[i, j]))
+        back = dist.threshold(z)
+        bad = (back != b).nonzero()
+        if len(bad):
+            i, j = [int(x) for x in bad[0]]
+            return "threshold(csample(b=%d)) = %d with %s=%r, noise=%r (%s), zcond=%r" % (bval, int(back[i, j]), case["par"], case["theta"][i], vals[j], case["dtype"], float(z[i, j]))
+    return None
+
+
+def _kf3_class(k, noise):
+    """KF-C19-3: a non-conditioning coordinate's noise is one of the largest values below 1 while the conditioning coordinate's is small"""
+    return max(x for j, x in enumerate(noise) if j != k) >= 1.0 - 2.0 ** -20 and noise[k] <= 2.0 ** -9
+
+
+def check_gumbel_threshold(case):
+    """case: {par, theta: [V values], dtype, K}: every noise vector on the grid^V, every one-hot b"""
+    torch = _torch()
+    import pydrobert.torch.distributions as PD
+
+    dt = _dt(case["dtype"])
+    V = len(case["theta"])
+    vals = _noise_values(case["K"], case["dtype"])
+    grid = torch.tensor(list(itertools.product(vals, repeat=V)), dtype=torch.float64).to(dt)  # (G, V)
+    G = grid.size(0)
+    dist = PD.GumbelOneHotCategorical(**{case["par"]: torch.tensor(case["theta"], dtype=dt).expand(G, V)})
+    for k in range(V):
+        b = torch.zeros(G, V, dtype=dt)
+        b[:, k] = 1.0
+        with _noise([], [grid]):
+            z = dist.csample(b)
+        if not torch.isfinite(z).all():
+            i = int((~torch.isfinite(z)).any(-1).nonzero()[0])
+            return "csample(b=e_%d) with %s=%r, noise=%r is %r (not in the support)" % (k, case["par"], case["theta"], grid[i].tolist(), z[i].tolist())
+        back = dist.threshold(z)
+        bad = [int(i) for i in (back != b).any(-1).nonzero().flatten()]
+        if bad:
+            # all failures are failures; one outside the class of KF-C19-3 (if any) is the one reported
+            bad.sort(key=lambda i: _kf3_class(k, grid[i].tolist()))
+            i = bad[0]
+            return "threshold(csample(b=e_%d)) = %r with %s=%r, noise=%r (%s), zcond=%r" % (k, back[i].tolist(), case["par"], case["theta"], grid[i].tolist(), case["dtype"], z[i].tolist())
+    return None
+
+
+def _tclose(a, b, tol):
+    torch = _torch()
+    both_inf = torch.isinf(a) & torch.isinf(b) & (a == b)
+    return both_inf | ((a - b).abs() <= tol * (1.0 + b.abs()))
+
+
+def check_lb_density(case):
+    """case: {par, theta: [values], K}. For z on a grid and z = rsample(u), zc = csample(b; v) on midpoint grids of the noise (float64):
+       log_prob(z) == tlog_prob(H(z)) + clog_prob(z, H(z));  clog_prob(z, 1-H(z)) == -inf;
+       log_prob(rsample(u)) == -log|dz/du|  and  clog_prob(csample(b; v), b) == -log|dzc/dv|  (densities of the samplers)"""
+    torch = _torch()
+    import pydrobert.torch.distributions as PD
+
+    K, par = case["K"], case["par"]
+    P = len(case["theta"])
+    zs = [-30.0, -8.0, -2.5, -1.0, -0.3, -1e-9, 0.0, 1e-9, 0.2, 1.0, 3.0, 9.0, 30.0]
+    mids = [(j + 0.5) / K for j in range(K)] + [1e-6, 1.0 - 1e-6]
+    tol = 1e-7
+
+    def mk(n):
+        return PD.LogisticBernoulli(**{par: torch.tensor(case["theta"], dtype=torch.float64).unsqueeze(-1).expand(P, n)})
+
+    def where(mask):
+        i, j = [int(x) for x in mask.nonzero()[0]]
+        return i, j
+
+    d = mk(len(zs))
+    z = torch.tensor(zs, dtype=torch.float64).unsqueeze(0).expand(P, len(zs))
+    for zz, name in ((z, "grid z"), (None, "z = rsample(u)")):
+        if zz is None:
+            d = mk(len(mids))
+            u = torch.tensor(mids, dtype=torch.float64).unsqueeze(0).expand(P, len(mids)).clone().requires_grad_(True)
+            with _noise([u]):
+                zz = d.rsample()
+            (dz,) = torch.autograd.grad(zz.sum(), u)
+            lhs, rhs = d.log_prob(zz).detach(), -dz.abs().log()
+            if not _tclose(lhs, rhs, tol).all():
+                i, j = where(~_tclose(lhs, rhs, tol))
+                return "%s=%r, u=%r: log_prob(rsample) = %s but the sampler's density -log|dz/du| = %s" % (par, case["theta"][i], mids[j], _fmt(float(lhs[i, j])), _fmt(float(rhs[i, j])))
+            zz = zz.detach()
+        h = d.threshold(zz)
+        lhs = d.log_prob(zz)
+        rhs = d.tlog_prob(h) + d.clog_prob(zz, h)
+        if not _tclose(lhs, rhs, tol).all():
+            i, j = where(~_tclose(lhs, rhs, tol))
+            return "%s=%r, %s=%r: log_prob = %s, tlog_prob(H(z)) + clog_prob(z, H(z)) = %s" % (par, case["theta"][i], name, float(zz[i, j]), _fmt(float(lhs[i, j])), _fmt(float(rhs[i, j])))
+        off = d.clog_prob(zz, 1.0 - h)
+        if not (off == -math.inf).all():
+            i, j = where(off != -math.inf)
+            return "%s=%r, z=%r: clog_prob(z, b) = %s for b != threshold(z), must be -inf" % (par, case["theta"][i], float(zz[i, j]), _fmt(float(off[i, j])))
+    d = mk(len(mids))
+    for bval in (0.0, 1.0):
+        b = torch.full((P, len(mids)), bval, dtype=torch.float64)
+        v = torch.tensor(mids, dtype=torch.float64).unsqueeze(0).expand(P, len(mids)).clone().requires_grad_(True)
+        with _noise([], [v]):
+            zc = d.csample(b)
+        (dz,) = torch.autograd.grad(zc.sum(), v)
+        lhs, rhs = d.clog_prob(zc.detach(), b), -dz.abs().log()
+        if not _tclose(lhs, rhs, tol).all():
+            i, j = where(~_tclose(lhs, rhs, tol))
+            return "%s=%r, b=%d, v=%r: clog_prob(csample(b), b) = %s but the conditional sampler's density -log|dz/dv| = %s" % (
+                par, case["theta"][i], bval, mids[j], _fmt(float(lhs[i, j])), _fmt(float(rhs[i, j])))
+    return None
+
+
+def check_gumbel_density(case):
+    """case: {par, theta: [V values], K}: as check_lb_density with the V x V Jacobian determinant of the conditional sampler"""
+    torch = _torch()
+    import pydrobert.torch.distributions as PD
+
+    K, par, V = case["K"], case["par"], len(case["theta"])
+    mids = [(j + 0.5) / K for j in range(K)] + [1e-4, 1.0 - 1e-4]
+    grid = torch.tensor(list(itertools.product(mids, repeat=V)), dtype=torch.float64)
+    G = grid.size(0)
+    d = PD.GumbelOneHotCategorical(**{par: torch.tensor(case["theta"], dtype=torch.float64).expand(G, V)})
+    tol = 1e-7
+
+    def jac_logdet(out, inp):
+        rows = [torch.autograd.grad(out[:, j].sum(), inp, retain_graph=True)[0] for j in range(V)]  # row j: d out_j / d inp
+        J = torch.stack(rows, 1)  # (G, V, V)
+        return torch.linalg.det(J).abs().log()
+
+    u = grid.clone().requires_grad_(True)
+    with _noise([u]):
+        z = d.rsample()
+    lhs, rhs = d.log_prob(z).detach(), -jac_logdet(z, u)
+    if not _tclose(lhs, rhs, tol).all():
+        i = int((~_tclose(lhs, rhs, tol)).nonzero()[0])
+        return "%s=%r, u=%r: log_prob(rsample) = %s but the sampler's density -log|det dz/du| = %s" % (par, case["theta"], grid[i].tolist(), _fmt(float(lhs[i])), _fmt(float(rhs[i])))
+    z = z.detach()
+    zgrid = torch.tensor(list(itertools.product([-6.0, -1.0, -0.2, 0.0, 0.7, 2.5, 8.0], repeat=V)), dtype=torch.float64)
+    zgrid = zgrid[[i for i in range(zgrid.size(0)) if (zgrid[i] == zgrid[i].max()).sum() == 1]]  # ties have no defined threshold in the property
+    for zz, dd in ((z, d), (zgrid, PD.GumbelOneHotCategorical(**{par: torch.tensor(case["theta"], dtype=torch.float64).expand(zgrid.size(0), V)}))):
+        h = dd.threshold(zz)
+        want = torch.nn.functional.one_hot(zz.argmax(-1), V).to(zz)
+        if not (h == want).all():
+            return "threshold does not return the one-hot arg-max"
+        lhs = dd.log_prob(zz)
+        rhs = dd.tlog_prob(h) + dd.clog_prob(zz, h)
+        if not _tclose(lhs, rhs, tol).all():
+            i = int((~_tclose(lhs, rhs, tol)).nonzero()[0])
+            return "%s=%r, z=%r: log_prob = %s, tlog_prob(H(z)) + clog_prob(z, H(z)) = %s" % (par, case["theta"], zz[i].tolist(), _fmt(float(lhs[i])), _fmt(float(rhs[i])))
+        for s in range(1, V):
+            off = dd.clog_prob(zz, h.roll(s, -1))
+            if not (off == -math.inf).all():
+                i = int((off != -math.inf).nonzero()[0])
+                return "%s=%r, z=%r: clog_prob(z, b) = %s for b != threshold(z), must be -inf" % (par, case["theta"], zz[i].tolist(), _fmt(float(off[i])))
+    for k in range(V):
+        b = torch.zeros(G, V, dtype=torch.float64)
+        b[:, k] = 1.0
+        v = grid.clone().requires_grad_(True)
+        with _noise([], [v]):
+            zc = d.csample(b)
+        lhs, rhs = d.clog_prob(zc.detach(), b), -jac_logdet(zc, v)
+        if not _tclose(lhs, rhs, tol).all():
+            i = int((~_tclose(lhs, rhs, tol)).nonzero()[0])
+            return "%s=%r, b=e_%d, v=%r: clog_prob(csample(b), b) = %s but the conditional sampler's density -log|det dz/dv| = %s" % (
+                par, case["theta"], k, grid[i].tolist(), _fmt(float(lhs[i])), _fmt(float(rhs[i])))
+    return None
+
+
+LB_LOGITS = [-30.0, -12.0, -6.0, -3.0, -1.5, -0.5, -1e-3, 0.0, 1e-3, 0.4, 1.0, 2.0, 4.0, 8.0, 15.0, 30.0]
+LB_PROBS = [0.0, 1e-30, 1e-12, 1e-7, 1e-3, 0.05, 0.125, 0.3, 0.5, 0.625, 0.9, 0.999, 1.0 - 1e-7, 1.0 - 1e-12, 1.0]
+
+
+def cases_lb_threshold(ctx):
+    K = 64 if ctx.quick else 512
+    for dtype in ("float32", "float64"):
+        for par, vals in (("logits", LB_LOGITS + [-80.0, 80.0, -200.0, 200.0]), ("probs", LB_PROBS)):
+            for x in vals:
+                yield {"par": par, "theta": [x], "dtype": dtype, "K": K}
+            if not ctx.quick:
+                rng = random.Random(ctx.seed + 31)
+                for _ in range(300):
+                    yield {"par": par, "theta": [rng.uniform(-20, 20) if par == "logits" else rng.random() for _ in range(8)], "dtype": dtype, "K": K}
+
+
+GUMBEL_LOGITS = {2: [[0.0, 0.0], [1.2, -0.4], [-2.0, 0.5], [-12.0, 0.0], [0.0, -30.0], [3.0, 3.0]],
+                 3: [[0.0, 0.0, 0.0], [1.0, -1.0, 0.3], [-0.7, 2.0, 0.1], [-15.0, 0.0, -3.0]],
+                 4: [[0.0, 0.0, 0.0, 0.0], [0.5, -1.0, 0.3, 1.1]]}
+
+
+def cases_gumbel_threshold(ctx):
+    for dtype in ("float32", "float64"):
+        for V, K in ((2, 24 if ctx.quick else 64), (3, 6 if ctx.quick else 16), (4, 1 if ctx.quick else 4)):
+            for th in GUMBEL_LOGITS[V]:
+                for par in ("logits", "probs"):
+                    yield {"par": par, "theta": th if par == "logits" else [math.exp(x) for x in th], "dtype": dtype, "K": K}
+            if not ctx.quick:
+                rng = random.Random(ctx.seed + 37 + V)
+                for _ in range(60):
+                    yield {"par": "logits", "theta": [rng.uniform(-8, 8) for _ in range(V)], "dtype": dtype, "K": K}
+
+
+def cases_lb_density(ctx):
+    K = 32 if ctx.quick else 256
+    for par, vals in (("logits", [x for x in LB_LOGITS if abs(x) <= 15.0]), ("probs", [p for p in LB_PROBS if 1e-7 <= p <= 1.0 - 1e-7])):
+        for x in vals:
+            yield {"par": par, "theta": [x], "K": K}
+    if not ctx.quick:
+        rng = random.Random(ctx.seed + 41)
+        for _ in range(400):
+            yield {"par": "logits", "theta": [rng.uniform(-10, 10) for _ in range(4)], "K": K}
+
+
+def cases_gumbel_density(ctx):
+    for V, K in ((2, 12 if ctx.quick else 32), (3, 5 if ctx.quick else 10)):
+        for th in GUMBEL_LOGITS[V]:
+            if min(th) < -13.0:
+                continue
+            for par in ("logits", "probs"):
+                yield {"par": par, "theta": th if par == "logits" else [math.exp(x) for x in th], "K": K}
+        if not ctx.quick:
+            rng = random.Random(ctx.seed + 43 + V)
+            for _ in range(100):
+                yield {"par": "logits", "theta": [rng.uniform(-4, 4) for _ in range(V)], "K": K}
+
+
+# ---------------------------------------------------------------------------------------------
+# C19.dist.support, C19.srswor.cardinality, C19.comb.enumerate
+
+
+def _card_ok(vec, total, given):
+    return all(x in (0.0, 1.0) for x in vec) and sum(vec) == given and all(x == 0.0 for x in vec[total:])
+
+
+def check_srswor(case):
+    """case: {mode: paths, total, given, out (None = total)}: every path of the sequential Bernoulli draws (torch.bernoulli forced: it may
+         return either value unless p is 0 or 1), each leaf a valid vector, leaves distinct and = all C(total, given) vectors, each path's
+         probability == exp(log_prob) of the distribution;
+       {mode: seed, totals: nested list, givens: nested list (broadcast), out, seed, via: fn|dist, shape}: real generator"""
+    torch = _torch()
+    import pydrobert.torch.distributions as PD
+    import pydrobert.torch.functional as PF
+
+    if case["mode"] == "paths":
+        total, given, out = case["total"], case["given"], case["out"]
+        T = total if out is None else out
+        leaves = {}
+        stack = [[]]
+        runs = 0
+        while stack:
+            prefix = stack.pop()
+            state = {"i": 0, "p": 1.0, "trail": list(prefix)}
+
+            def bern(p, state=state):
+                pv = float(p)
+                if not (0.0 <= pv <= 1.0):
+                    raise AssertionError("torch.bernoulli called with p=%r outside [0, 1]" % pv)
+                if pv == 0.0 or pv == 1.0:
+                    return torch.full_like(p, pv)
+                i = state["i"]
+                state["i"] += 1
+                if i < len(state["trail"]):
+                    bit = state["trail"][i]
+                else:
+                    bit = 0
+                    state["trail"].append(0)
+                    stack.append(state["trail"][:i] + [1])
+                state["p"] *= pv if bit else 1.0 - pv
+                return torch.full_like(p, float(bit))
+
+            with _noise(bernoulli=bern):
+                b = PF.simple_random_sampling_without_replacement(torch.tensor(total), torch.tensor(given), out)
+            runs += 1
+            if runs > 5000:
+                return "driver: path enumeration does not terminate"
+            if tuple(b.shape) != (T,):
+                return "sample has shape %s, expected (%d,)" % (tuple(b.shape), T)
+            vec = tuple(b.tolist())
+            if not _card_ok(vec, total, given):
+                return "path %s yields %s: not exactly %d ones inside the first %d positions" % (state["trail"], vec, given, total)
+            leaves[vec] = leaves.get(vec, 0.0) + state["p"]
+        want = set(tuple(float(x) for x in v) for v in _comb_vectors(total, given, T))
+        if set(leaves) != want:
+            return "reachable samples %s differ from the %d vectors with %d ones among the first %d positions" % (sorted(leaves), len(want), given, total)
+        if not _close(math.fsum(leaves.values()), 1.0):
+            return "path probabilities sum to %s" % _fmt(math.fsum(leaves.values()))
+        dist = PD.SimpleRandomSamplingWithoutReplacement(given, total, out)
+        for vec, p in leaves.items():
+            lp = float(dist.log_prob(torch.tensor(vec)))
+            if not _close(math.exp(lp), p, 1e-5):
+                return "sample %s is drawn with probability %s but exp(log_prob) = %s" % (vec, _fmt(p), _fmt(math.exp(lp)))
+        return None
+    totals, givens = torch.tensor(case["totals"]), torch.tensor(case["givens"])
+    out, shape = case["out"], tuple(case.get("shape", ()))
+    torch.manual_seed(case["seed"])
+    if case["via"] == "fn":
+        b = PF.simple_random_sampling_without_replacement(totals, givens, out)
+        dist = None
+    else:
+        dist = PD.SimpleRandomSamplingWithoutReplacement(givens, totals, out)
+        b = dist.sample(shape)
+    tt, gg = torch.broadcast_tensors(totals, givens)
+    T = int(totals.max()) if out is None else out
+    want_shape = shape + tuple(tt.shape) + (T,)
+    if tuple(b.shape) != want_shape:
+        return "sample has shape %s, expected %s" % (tuple(b.shape), want_shape)
+    bb = b.reshape((-1,) + tuple(tt.shape) + (T,))
+    for s in range(bb.size(0)):
+        for pos in itertools.product(*[range(n) for n in tt.shape]):
+            vec = bb[(s,) + pos].tolist()
+            t, g = int(tt[pos]), int(gg[pos])
+            if not _card_ok(vec, t, g):
+                return "element %s (total=%d, given=%d): sample %s does not have exactly %d ones inside the first %d positions" % (pos, t, g, vec, g, t)
+    if dist is not None and not bool(dist.support.check(b).all()):
+        return "the distribution's own support constraint rejects its sample"
+    return None
+
+
+def cases_srswor(ctx):
+    quick = ctx.quick
+    tmax = 7 if quick else 10
+    for total in range(0, tmax + 1):
+        for given in range(0, total + 1):
+            for out in (None, total, total + 2):
+                yield {"mode": "paths", "total": total, "given": given, "out": out}
+    rng = random.Random(ctx.seed + 47)
+    nseed = 8 if quick else 40
+    for total in range(0, 9 if quick else 14):
+        for given in range(0, total + 1):
+            for seed in range(ctx.seed, ctx.seed + nseed):
+                for via in ("fn", "dist"):
+                    yield {"mode": "seed", "totals": total, "givens": given, "out": rng.choice([None, total, total + 1, total + 4]), "seed": seed, "via": via,
+                           "shape": [] if via == "fn" else rng.choice([[], [3], [2, 2]])}
+    for _ in range(1500 if quick else 20000):  # ragged batches, broadcasting
+        B = rng.choice([1, 2, 3, 5])
+        tmx = rng.choice([3, 6, 12] if quick else [3, 6, 12, 30])
+        tots = [rng.randint(0, tmx) for _ in range(B)]
+        if rng.random() < 0.5:
+            giv = [rng.randint(0, t) for t in tots]
+        else:  # a column of totals against a row of givens
+            giv = [[rng.randint(0, min(tots))] for _ in range(rng.choice([1, 2]))]
+        via = rng.choice(["fn", "dist"])
+        yield {"mode": "seed", "totals": tots, "givens": giv, "out": rng.choice([None, max(tots), max(tots) + 3]), "seed": rng.randrange(2 ** 31), "via": via,
+               "shape": [] if via == "fn" else rng.choice([[], [2]])}
+
+
+def check_dist(case):
+    """case: {dist: srswor, total, given, out, batch}: enumerate_support distinct, inside the support, exactly the C(total,given) vectors, probabilities sum to 1
+       {dist: lb|gumbel, par, theta, dtype, u: extreme|seed:<k>}: rsample/sample finite (support = reals), threshold inside the thresholded
+       support, tlog_prob over the thresholded support sums to one"""
+    torch = _torch()
+    import pydrobert.torch.distributions as PD
+
+    if case["dist"] == "srswor":
+        total, given, out, nb = case["total"], case["given"], case["out"], case.get("batch", 0)
+        g = torch.tensor(given) if not nb else torch.full((nb,), given)
+        t = torch.tensor(total) if not nb else torch.full((nb,), total)
+        dist = PD.SimpleRandomSamplingWithoutReplacement(g, t, out)
+        T = total if out is None else out
+        if not dist.has_enumerate_support:
+            return "has_enumerate_support is False for equal counts"
+        sup = dist.enumerate_support()
+        bshape = () if not nb else (nb,)
+        n = math.comb(total, given)
+        if tuple(sup.shape) != (n,) + bshape + (T,):
+            return "enumerate_support has shape %s, expected %s" % (tuple(sup.shape), (n,) + bshape + (T,))
+        if not bool(dist.support.check(sup).all()):
+            return "an enumerated element is outside the distribution's support"
+        lp = dist.log_prob(sup)
+        if tuple(lp.shape) != (n,) + bshape:
+            return "log_prob of the support has shape %s" % (tuple(lp.shape),)
+        for col in range(max(nb, 1)):
+            rows = [tuple(sup[(i,) + ((col,) if nb else ())].tolist()) for i in range(n)]
+            if len(set(rows)) != n or set(rows) != set(tuple(float(x) for x in v) for v in _comb_vectors(total, given, T)):
+                return "enumerated support %s is not the set of vectors with %d ones among the first %d positions (each once)" % (rows, given, total)
+            tot = float(lp[(slice(None),) + ((col,) if nb else ())].to(torch.float64).exp().sum())
+            if not _close(tot, 1.0, 1e-5):
+                return "probabilities over the enumerated support sum to %s" % _fmt(tot)
+        return None
+    dt = _dt(case["dtype"])
+    par, theta = case["par"], case["theta"]
+    lb = case["dist"] == "lb"
+    ext = [0.0, 2.0 ** -149 if case["dtype"] == "float32" else 5e-324, 2.0 ** -24, 0.25, 0.5, U32_MAX if case["dtype"] == "float32" else U64_MAX]
+    if lb:
+        param = torch.tensor(theta, dtype=dt)
+        dist = PD.LogisticBernoulli(**{par: param})
+        ushape = (len(ext), len(theta))
+        forced = torch.tensor(ext, dtype=torch.float64).to(dt).unsqueeze(-1).expand(ushape)
+    else:
+        V = len(theta)
+        param = torch.tensor(theta, dtype=dt)
+        dist = PD.GumbelOneHotCategorical(**{par: param})
+        combos = list(itertools.product(ext, repeat=V))
+        ushape = (len(combos), V)
+        forced = torch.tensor(combos, dtype=torch.float64).to(dt)
+    if case["u"] == "extreme":
+        with _noise([forced, forced]):
+            zs = [dist.rsample([ushape[0]]), dist.sample([ushape[0]])]
+    else:
+        torch.manual_seed(int(case["u"][5:]))
+        zs = [dist.rsample([64]), dist.sample([64])]
+    for z, nm in zip(zs, ("rsample", "sample")):
+        if z.dtype != dt or tuple(z.shape[1:]) != tuple(param.shape):
+            return "%s has dtype/shape %s %s" % (nm, z.dtype, tuple(z.shape))
+        if not torch.isfinite(z).all() or not bool(dist.support.check(z).all()):
+            i = int((~torch.isfinite(z)).reshape(z.size(0), -1).any(-1).nonzero()[0])
+            return "%s returns %r (outside the support) for %s=%r, noise %r" % (nm, z[i].tolist(), par, theta, forced[i].tolist() if case["u"] == "extreme" else case["u"])
+        b = dist.threshold(z)
+        if not bool(dist.thresholded_support.check(b).all()):
+            return "threshold(%s) is outside the thresholded support" % nm
+        lpb = dist.tlog_prob(b)
+        if not torch.isfinite(lpb).all() and not lb:
+            pass  # a category of probability zero may carry -inf
+    if lb:
+        tot = dist.tlog_prob(torch.zeros_like(param)).to(torch.float64).exp() + dist.tlog_prob(torch.ones_like(param)).to(torch.float64).exp()
+    else:
+        tot = sum(dist.tlog_prob(torch.nn.functional.one_hot(torch.tensor(k), V).to(dt)).to(torch.float64).exp() for k in range(V))
+    tol = 1e-5 if case["dtype"] == "float32" else 1e-9
+    if not bool(((tot - 1.0).abs() <= tol).all()):
+        return "thresholded probabilities sum to %r for %s=%r" % (tot.tolist(), par, theta)
+    return None
+
+
+def cases_dist(ctx):
+    quick = ctx.quick
+    for total in range(0, (7 if quick else 11) + 1):
+        for given in range(0, total + 1):
+            for out in (None, total, total + 2):
+                for nb in (0, 3):
+                    yield {"dist": "srswor", "total": total, "given": given, "out": out, "batch": nb}
+    us = ["extreme"] + ["seed:%d" % (ctx.seed + k) for k in range(4 if quick else 40)]
+    for dtype in ("float32", "float64"):
+        for u in us:
+            for par, vals in (("logits", LB_LOGITS + [-80.0, 80.0]), ("probs", LB_PROBS)):
+                for i in range(0, len(vals), 4):
+                    yield {"dist": "lb", "par": par, "theta": vals[i:i + 4], "dtype": dtype, "u": u}
+            for V in (2, 3, 4):
+                for th in GUMBEL_LOGITS[V]:
+                    for par in ("logits", "probs"):
+                        yield {"dist": "gumbel", "par": par, "theta": th if par == "logits" else [math.exp(x) for x in th], "dtype": dtype, "u": u}
+
+
+def check_comb(case):
+    """case: {fn: binom, lengths, counts} | {fn: vocab, length, vocab} | {fn: card, length, count} | {fn: cardt, lengths, counts}"""
+    torch = _torch()
+    import pydrobert.torch.functional as PF
+
+    fn = case["fn"]
+    if fn == "binom":
+        ln, ct = torch.tensor(case["lengths"]), torch.tensor(case["counts"])
+        got = PF.binomial_coefficient(ln, ct)
+        L, Cn = torch.broadcast_tensors(ln, ct)
+        if got.shape != L.shape or got.dtype != torch.long:
+            return "result has shape/dtype %s %s" % (tuple(got.shape), got.dtype)
+        for g, l, c in zip(got.reshape(-1).tolist(), L.reshape(-1).tolist(), Cn.reshape(-1).tolist()):
+            if g != math.comb(l, c):
+                return "binomial_coefficient(%d, %d) = %d, expected %d" % (l, c, g, math.comb(l, c))
+        return None
+    if fn == "vocab":
+        L, V = case["length"], case["vocab"]
+        sup = PF.enumerate_vocab_sequences(L, V) if V != 2 or case.get("generic") else PF.enumerate_binary_sequences(L)
+        if tuple(sup.shape) != (V ** L, L):
+            return "support has shape %s, expected %s" % (tuple(sup.shape), (V ** L, L))
+        rows = [tuple(r) for r in sup.tolist()]
+        if set(rows) != set(itertools.product(range(V), repeat=L)) or len(set(rows)) != len(rows):
+            return "rows are not all sequences over %d symbols of length %d, each once" % (V, L)
+        for x in range(L + 1):  # documented order: the first V^(L-x) rows restricted to the first L-x columns are all shorter sequences
+            sub = [tuple(r[: L - x]) for r in rows[: V ** (L - x)]]
+            if set(sub) != set(itertools.product(range(V), repeat=L - x)):
+                return "rows[:%d, :%d] are not all sequences of length %d" % (V ** (L - x), L - x, L - x)
+        return None
+    if fn == "card":
+        L, Cn = case["length"], case["count"]
+        sup = PF.enumerate_binary_sequences_with_cardinality(L, Cn)
+        rows = [tuple(r) for r in sup.tolist()]
+        want = set(_comb_vectors(L, Cn, L))
+        if tuple(sup.shape) != (len(want), L) or set(rows) != want or len(set(rows)) != len(rows):
+            return "support %s is not the %d binary sequences of length %d with %d ones, each once" % (rows, len(want), L, Cn)
+        return None
+    ln, ct = torch.tensor(case["lengths"]), torch.tensor(case["counts"])
+    sup, binom = PF.enumerate_binary_sequences_with_cardinality(ln, ct)
+    Lb, Cb = torch.broadcast_tensors(ln, ct)
+    nmax = max(math.comb(l, c) for l, c in zip(Lb.reshape(-1).tolist(), Cb.reshape(-1).tolist()))
+    if tuple(binom.shape) != tuple(Lb.shape) or tuple(sup.shape) != tuple(Lb.shape) + (nmax, int(ln.max())):
+        return "shapes %s / %s, expected %s / %s" % (tuple(sup.shape), tuple(binom.shape), tuple(Lb.shape) + (nmax, int(ln.max())), tuple(Lb.shape))
+    for pos in itertools.product(*[range(n) for n in Lb.shape]):
+        l, c = int(Lb[pos]), int(Cb[pos])
+        if int(binom[pos]) != math.comb(l, c):
+            return "binom%s = %d, expected C(%d,%d) = %d" % (list(pos), int(binom[pos]), l, c, math.comb(l, c))
+        rows = [tuple(r[:l]) for r in sup[pos][: math.comb(l, c)].tolist()]
+        want = set(_comb_vectors(l, c, l))
+        if set(rows) != want or len(set(rows)) != len(rows):
+            return "support%s[:%d, :%d] = %s is not the set of binary sequences of length %d with %d ones, each once" % (list(pos), math.comb(l, c), l, rows, l, c)
+    return None
+
+
+def cases_comb(ctx):
+    quick = ctx.quick
+    lmax = 30 if quick else 66
+    for l in range(0, lmax + 1):
+        # one call per length: all counts 0..l+2 at once (count > length must give 0); max length decides the branch (<= 20 factorials, > 20 recursion)
+        yield {"fn": "binom", "lengths": l, "counts": list(range(0, l + 3))}
+        yield {"fn": "binom", "lengths": [[l], [max(l - 3, 0)], [0]], "counts": list(range(0, l + 2, max(1, l // 6)))}
+    for V in (1, 2, 3, 4):
+        for L in range(0, {1: 6, 2: 8 if quick else 12, 3: 5 if quick else 7, 4: 4 if quick else 5}[V] + 1):
+            yield {"fn": "vocab", "length": L, "vocab": V}
+            if V == 2:
+                yield {"fn": "vocab", "length": L, "vocab": V, "generic": True}
+    for L in range(0, (9 if quick else 13) + 1):
+        for Cn in range(0, L + 2):
+            yield {"fn": "card", "length": L, "count": Cn}
+    rng = random.Random(ctx.seed + 53)
+    for L in range(0, (6 if quick else 9) + 1):
+        for Cn in range(0, L + 1):
+            yield {"fn": "cardt", "lengths": [L], "counts": [Cn]}
+    for _ in range(300 if quick else 3000):
+        B = rng.choice([1, 2, 3, 4])
+        ls = [rng.randint(0, 6 if quick else 9) for _ in range(B)]
+        yield {"fn": "cardt", "lengths": ls, "counts": [rng.randint(0, l + (1 if rng.random() < 0.1 else 0)) for l in ls]}
+
+
+# ---------------------------------------------------------------------------------------------
+# registry
+
+
+CHECKERS = {"C19.direct.unbiased_grad": check_direct, "C19.is.unbiased_grad": check_is, "C19.enum.exact": check_enum, "C19.relax.value_mean": check_relax,
+            "C19.mh.accept_all": check_mh, "C19.lb.threshold_csample": check_lb_threshold, "C19.gumbel.threshold_csample": check_gumbel_threshold,
+            "C19.lb.density_factor": check_lb_density, "C19.gumbel.density_factor": check_gumbel_density, "C19.dist.support": check_dist,
+            "C19.srswor.cardinality": check_srswor, "C19.comb.enumerate": check_comb}
+
+FINDINGS = [
+    {"id": "KF-C19-1", "property": "C19", "clause": "C19.direct.unbiased_grad",
+     "what": "DirectEstimator(is_log=True) with a control variate is biased when f(b)=0 (log f = -inf) for every Monte Carlo sample of a draw: fb_lmax is then "
+             "finfo.min/2, exp(clamp(cv_mean - fb_lmax)) saturates at exp(EPS_INF) and the returned exp(v) is 0 instead of mu_c - c(b)",
+     "class": "is_log and a control variate whose value differs from cv_mean on some b and f has an exact zero (log-value -inf): the averaged VALUE differs from the expectation",
+     "witness": {"fam": "bern", "par": "probs", "theta": [[0.5]], "M": 1, "f": [None, 0.0], "log": True, "kappa": 0.0, "cv": "tab", "c": [None, -1.4235315371231945]}},
+    {"id": "KF-C19-2", "property": "C19", "clause": "C19.is.unbiased_grad",
+     "what": "ImportanceSamplingEstimator(is_log=True): the gradient is NaN when log f = -inf for every Monte Carlo sample of a draw ((fb + llr).logsumexp(0) over all -inf)",
+     "class": "is_log and f has an exact zero (log-value -inf): the averaged gradient w.r.t. the density's parameters is NaN (the value is right)",
+     "witness": {"fam": "bern", "par": "logits", "theta": [[-3.0]], "phi": [[0.0]], "M": 1, "f": [0.0, None], "log": True, "kappa": 0.0, "sn": False}},
+    {"id": "KF-C19-3", "property": "C19", "clause": "C19.gumbel.threshold_csample",
+     "what": "GumbelOneHotCategorical.csample: 'zcond_match_k - finfo.eps' is absorbed by rounding once |zcond_match_k| >= 2, so a non-conditioning coordinate whose noise is "
+             "within ~2^-20 of 1 ties with the conditioning coordinate and threshold(csample(b)) returns the first tied index instead of b",
+     "class": "noise of a non-conditioning coordinate >= 1 - 2^-20 and noise of the conditioning coordinate <= 2^-9 (float32 and float64)",
+     "witness": {"par": "logits", "theta": [0.0, 0.0], "dtype": "float32", "K": 1}},
+    {"id": "KF-C19-4", "property": "C19", "clause": "C19.srswor.cardinality",
+     "what": "simple_random_sampling_without_replacement (and SimpleRandomSamplingWithoutReplacement.sample) raise RuntimeError for vectors of length 0 "
+             "(every total_count 0 and out_size None or 0): b.view(out_size, -1) on an empty tensor",
+     "class": "max(total_count) == 0 and out_size in (None, 0)",
+     "witness": {"mode": "paths", "total": 0, "given": 0, "out": None}},
+    {"id": "KF-C19-5", "property": "C19", "clause": "C19.dist.support",
+     "what": "SimpleRandomSamplingWithoutReplacement.enumerate_support raises RuntimeError for vectors of length 0 (total_count 0 and out_size None or 0): "
+             "support.view((-1, ..., 0)) on an empty tensor",
+     "class": "distribution srswor, total_count == 0 and out_size in (None, 0)",
+     "witness": {"dist": "srswor", "total": 0, "given": 0, "out": None, "batch": 0}},
+]
+
+
+def _kf3(case, msg):
+    import re
+
+    m = re.search(r"threshold\(csample\(b=e_(\d+)\)\).*noise=\[([^\]]*)\]", msg)
+    return bool(m) and _kf3_class(int(m.group(1)), [float(x) for x in m.group(2).split(",")])
+
+
+def _kf4(case, msg):
+    if "cannot reshape tensor of 0 elements" not in msg:
+        return False
+    if case["mode"] == "paths":
+        return case["total"] == 0 and case["out"] in (None, 0)
+    tot = case["totals"]
+    flat = [tot] if isinstance(tot, int) else list(tot)
+    return max(flat) == 0 and case["out"] in (None, 0)
+
+
+KNOWN_MATCH = {
+    "KF-C19-1": lambda case, msg: bool(case.get("log")) and case.get("cv") == "tab" and None in case["f"] and msg.startswith("value averaged"),
+    "KF-C19-2": lambda case, msg: bool(case.get("log")) and not case.get("sn") and None in case["f"] and msg.startswith("gradient w.r.t. the density") and "nan" in msg,
+    "KF-C19-3": _kf3,
+    "KF-C19-4": _kf4,
+    "KF-C19-5": lambda case, msg: case.get("dist") == "srswor" and case["total"] == 0 and case["out"] in (None, 0) and "cannot reshape tensor of 0 elements" in msg,
+}
+
+
+def _nt_discrete(case):
+    """non-trivial: the draw space has more than one point per sample and the function is not constant"""
+    vals = set(case["f"]) if not isinstance(case["f"][0], list) else set(tuple(t) for t in case["f"])
+    return len(vals) > 1
 
 
 def run_bounded(ctx):
     ctx.known_match.update(KNOWN_MATCH)
     torch = _torch()
     torch.set_num_threads(1)
+    # import once in the parent so the forked workers inherit the loaded modules
     import pydrobert.torch  # noqa: F401
     import pydrobert.torch.distributions  # noqa: F401
     import pydrobert.torch.estimators  # noqa: F401
@@ -1018,16 +1734,108 @@ def run_bounded(ctx):
         return not only or any(name.startswith(p) for p in only)
 
     q = ctx.quick
+    fams = ("1-3 Bernoulli variables (Independent(Bernoulli)), 1-2 one-hot categorical variables with 2-3 categories (OneHotCategorical / Independent), 1-2 integer categorical variables%s; "
+            "logits AND probs parameterisation (categorical probs unnormalised); parameters on the grid {-3,-1,0,.5,2} (1 variable) / {-1.5,0,.8}^n%s shifted by .1 per variable, 3 logit vectors per "
+            "categorical variable; M in %s Monte Carlo samples, ALL |space|^M draws; functions: the indicator of every point of the space (a basis) + 2 generic tables, plain and log space "
+            "(log 0 = -inf included); f also depending on the parameters (+0.3*sum theta)") % (
+                "" if q else ", 3 binary one-hot variables, 4 categories", "" if q else " ({-1.5,-.3,.4,1.1}^3 for 3 variables, 5^2 for 2)", "{1,2}" if q else "{1,2,3} (spaces <= 4 points; else {1,2})")
+    rnd = "" if q else "; + 20000 seeded random cases (parameters in [-4,4], random tables, up to 5 categories)"
     if want("C19.direct.unbiased_grad"):
         ctx.bounded("C19.direct.unbiased_grad", check_direct, cases_direct(ctx),
-                    bound="x", text="y", chunk=64, functions=["_mc.DirectEstimator.__call__"])
+                    bound=fams + "; control variate: none / a table different from f with cv_mean = E_theta[c] given as a differentiable function of the parameters / a constant with a constant mean" + rnd,
+                    text="DirectEstimator: sum over all draws of P(draw) * returned value == E_P[f] and its autograd gradient w.r.t. the proposal's parameters == the closed-form gradient (tol 1e-9 relative, float64); "
+                         "log space: the same for exp(value)",
+                    nontrivial=_nt_discrete, chunk=64, functions=["_mc.DirectEstimator.__call__"])
     if want("C19.is.unbiased_grad"):
         ctx.bounded("C19.is.unbiased_grad", check_is, cases_is(ctx),
-                    bound="x", text="y", chunk=64, functions=["_mc.ImportanceSamplingEstimator.__call__"])
+                    bound=fams + "; proposal Q: flat, skewed, and equal to the density; self-normalised form with density = Q shifted by 1 nat (value only)" + rnd,
+                    text="ImportanceSamplingEstimator: sum over all draws from Q of Q(draw) * returned value == E_P[f]; gradient w.r.t. the density's parameters == closed form; gradient w.r.t. the proposal's parameters == 0",
+                    nontrivial=_nt_discrete, chunk=64, functions=["_mc.ImportanceSamplingEstimator.__call__"])
     if want("C19.enum.exact"):
         ctx.bounded("C19.enum.exact", check_enum, cases_enum(ctx),
-                    bound="x", text="y", chunk=64, functions=["_enumerate_estimator.EnumerateEstimator.__call__"])
+                    bound="Bernoulli / OneHotCategorical / Categorical (2-4 categories) with batch shape 1..3 (independent problems, different tables per element), both parameterisations, grids as above, plain/log, "
+                          "f depending on the parameters; SimpleRandomSamplingWithoutReplacement total 1..%d, every given, out_size in {None,total,total+1,total+3}, scalar and batched counts%s" % (
+                              5 if q else 8, "" if q else "; + 5000 seeded random cases (up to 5 categories, batch 4)"),
+                    text="EnumerateEstimator: the returned value equals sum_b P(b) f(b) per batch element and the gradient of a weighted sum of the elements equals the closed form",
+                    chunk=64, functions=["_enumerate_estimator.EnumerateEstimator.__call__", "_combinatorics.SimpleRandomSamplingWithoutReplacement.enumerate_support"])
     if want("C19.relax.value_mean"):
         ctx.bounded("C19.relax.value_mean", check_relax, cases_relax(ctx),
-                    bound="x", text="y", chunk=4, functions=["_mc.RelaxEstimator.__call__"])
+                    bound="LogisticBernoulli: StraightThroughEstimator n in 1..3 variables x M in 1..2, functions of the JOINT sample, piecewise Gauss-Legendre in the noise (2 nodes each side of the jump at u=1-p: exact) and "
+                          "the fixed 8-point midpoint grid with p in {1,3,4,6,7}/8 (exact), tol 1e-9; RelaxEstimator (n,M) in {(1,1): 16+16 x 24 nodes, tol 2e-5; (1,2),(2,1): (8+8 x 12)^2 nodes, tol 2e-4%s}, "
+                          "control variates: the library's REBAR module (temp .5) and a*sigmoid(z)+b*sigmoid(2z+.3)+c, plain and log space, value AND gradient (elementwise functions) / value (joint functions); "
+                          "GumbelOneHotCategorical with 2 categories, M=1, %d parameter vectors x 2 parameterisations: iterated smoothed Gauss-Legendre rule split at the arg-max boundary u_1 = u_0^(p_1/p_0), "
+                          "%s nodes, tol 1e-5 (straight-through) / 2e-3 (RELAX value and gradient)" % (
+                              "" if q else "; (1,3),(3,1): (4+4 x 6)^3 nodes, tol 1e-2; wider parameters with (12+12 x 16)^2 nodes, tol 2e-4", 5 if q else 7, "12x16x8x8" if q else "16x20x12x12"),
+                    text="torch.rand / torch.rand_like forced to quadrature nodes laid out along the batch dimension: the quadrature mean of the returned value equals E_P[f(b)] (and for RELAX its gradient the exact gradient)",
+                    chunk=2, functions=["_mc.StraightThroughEstimator.__call__", "_mc.RelaxEstimator.__call__", "_mc.LogisticBernoulliRebarControlVariate.forward", "_mc.GumbelOneHotCategoricalRebarControlVariate.forward",
+                                        "_straight_through.LogisticBernoulli.rsample", "_straight_through.LogisticBernoulli.csample", "_straight_through.GumbelOneHotCategorical.rsample",
+                                        "_straight_through.GumbelOneHotCategorical.csample"])
+    if want("C19.mh.accept_all"):
+        ctx.bounded("C19.mh.accept_all", check_mh, cases_mh(ctx),
+                    bound="proposal = target over %s; mc_samples N in 1..%d, every burn_in < N, EVERY chain (start + N proposals) over the sample space in one batch; start drawn / supplied with and without the leading "
+                          "singleton dimension; target = the proposal object / an equal distribution / the proposal shifted by 0.7 nats (unnormalised); uniform draws all 1-2^-24, all 0, alternating, and %d generator seeds; "
+                          "plain and log space" % ("{1,2 Bernoulli, 3-way one-hot, 3-way categorical}" if q else "{1-3 Bernoulli, 3-way and 2x2 one-hot, 3/4-way categorical}", 3 if q else 4, 2 if q else 8),
+                    text="IndependentMetropolisHastingsEstimator with a forced proposal sequence: exactly N (+1) proposals are drawn and the result is the plain average of f over proposals burn_in+1..N, i.e. every proposal was accepted "
+                         "(also the regression oracle for the initial_sample AttributeError fixed in af41fec)",
+                    chunk=32, functions=["_mc.IndependentMetropolisHastingsEstimator.__init__", "_mc.IndependentMetropolisHastingsEstimator.__call__", "_mc.IndependentMetropolisHastingsEstimator.find_initial_sample"])
+    K = 64 if q else 512
+    if want("C19.lb.threshold_csample"):
+        ctx.bounded("C19.lb.threshold_csample", check_lb_threshold, cases_lb_threshold(ctx),
+                    bound="float32 and float64; logits in {0,+-1e-3,+-.5..,+-30,+-80,+-200} (20 values), probs in {0,1e-30,1e-12,1e-7,..,1-1e-7,1-1e-12,1} (15 values)%s; noise: %d-point midpoint grid + {0, smallest subnormal, 2^-126, 2^-60, 2^-10..2^-24, "
+                          "1-2^-12, 1-2^-20, 1-2^-24 (, 1-2^-40, 1-2^-53)}; both b" % ("" if q else " + 300 random parameter vectors", K),
+                    text="LogisticBernoulli: threshold(csample(b)) == b and csample finite, for every parameter x noise value x b",
+                    chunk=4, functions=["_straight_through.LogisticBernoulli.csample", "_straight_through.LogisticBernoulli.threshold"])
+    if want("C19.gumbel.threshold_csample"):
+        ctx.bounded("C19.gumbel.threshold_csample", check_gumbel_threshold, cases_gumbel_threshold(ctx),
+                    bound="float32 and float64; V=2 (6 logit vectors), V=3 (4), V=4 (2), logits and probs%s; noise: every vector over (midpoint grid of %s points + the special values above)^V; every one-hot b" % (
+                        "" if q else " + 60 random logit vectors per V", "24/6/1" if q else "64/16/4"),
+                    text="GumbelOneHotCategorical: threshold(csample(b)) == b and csample finite",
+                    chunk=1, functions=["_straight_through.GumbelOneHotCategorical.csample", "_straight_through.GumbelOneHotCategorical.threshold"])
+    if want("C19.lb.density_factor"):
+        ctx.bounded("C19.lb.density_factor", check_lb_density, cases_lb_density(ctx),
+                    bound="float64; logits |x|<=15 (14 values), probs in [1e-7, 1-1e-7] (11 values)%s; z on {0,+-1e-9,+-.2..,+-30} and z = rsample(u), zc = csample(b; v) for u, v on the %d-point midpoint grid + {1e-6, 1-1e-6}" % (
+                        "" if q else " + 400 random vectors", 32 if q else 256),
+                    text="log_prob(z) == tlog_prob(H(z)) + clog_prob(z, H(z)); clog_prob(z, 1-H(z)) == -inf; log_prob(rsample(u)) == -log|dz/du| and clog_prob(csample(b;v), b) == -log|dzc/dv| (the densities ARE the samplers' densities), tol 1e-7",
+                    chunk=4, functions=["_straight_through.LogisticBernoulli.log_prob", "_straight_through.LogisticBernoulli.tlog_prob", "_straight_through.LogisticBernoulli.clog_prob"])
+    if want("C19.gumbel.density_factor"):
+        ctx.bounded("C19.gumbel.density_factor", check_gumbel_density, cases_gumbel_density(ctx),
+                    bound="float64; V=2 (5 logit vectors) and V=3 (3), both parameterisations%s; noise on the (%s-point midpoint grid + {1e-4, 1-1e-4})^V; z also on {-6,-1,-.2,0,.7,2.5,8}^V without ties" % (
+                        "" if q else " + 100 random vectors per V", "12/5" if q else "32/10"),
+                    text="the same four identities with V x V Jacobian determinants; threshold == one-hot arg-max",
+                    chunk=1, functions=["_straight_through.GumbelOneHotCategorical.log_prob", "_straight_through.GumbelOneHotCategorical.tlog_prob", "_straight_through.GumbelOneHotCategorical.clog_prob"])
+    if want("C19.dist.support"):
+        ctx.bounded("C19.dist.support", check_dist, cases_dist(ctx),
+                    bound="SimpleRandomSamplingWithoutReplacement: total 0..%d, every given, out_size in {None,total,total+2}, scalar and batched; LogisticBernoulli (35 parameter values) and GumbelOneHotCategorical "
+                          "(V in 2..4, 12 vectors, 2 parameterisations), float32/float64, noise: all combinations of {0, smallest subnormal, 2^-24, .25, .5, largest below 1} and %d generator seeds x 64 samples" % (7 if q else 11, 4 if q else 40),
+                    text="enumerate_support: distinct, inside the support, exactly the C(total,given) vectors, exp(log_prob) sums to 1; relaxed samples finite (support = reals), thresholded samples inside the thresholded support, "
+                         "thresholded probabilities sum to 1",
+                    chunk=16, functions=["_combinatorics.SimpleRandomSamplingWithoutReplacement.enumerate_support", "_combinatorics.SimpleRandomSamplingWithoutReplacement.log_prob", "_combinatorics.BinaryCardinalityConstraint.check",
+                                         "_straight_through.LogisticBernoulli.rsample", "_straight_through.GumbelOneHotCategorical.rsample"])
+    if want("C19.srswor.cardinality"):
+        ctx.bounded("C19.srswor.cardinality", check_srswor, cases_srswor(ctx),
+                    bound="forced torch.bernoulli (either value unless p is 0 or 1): EVERY path for total 0..%d, every given, out_size in {None,total,total+2}; real generator: total 0..%d, every given, %d seeds, function and "
+                          "distribution.sample with sample shapes (), (3,), (2,2); + %d seeded ragged/broadcast batches (totals <= %d)" % (7 if q else 10, 8 if q else 13, 8 if q else 40, 1500 if q else 20000, 12 if q else 30),
+                    text="every reachable sample has exactly `given` ones, all inside the first `total` positions, shape (*, out_size); the reachable set is all C(total,given) vectors; each path's probability equals exp(log_prob)",
+                    nontrivial=lambda c: (c["mode"] == "paths" and 0 < c["given"] < c["total"]) or c["mode"] == "seed", chunk=32,
+                    functions=["_combinatorics.simple_random_sampling_without_replacement", "_combinatorics.SimpleRandomSamplingWithoutReplacement.sample", "_combinatorics.SimpleRandomSamplingWithoutReplacement.log_prob"])
+    if want("C19.comb.enumerate"):
+        ctx.bounded("C19.comb.enumerate", check_comb, cases_comb(ctx),
+                    bound="binomial_coefficient: every length 0..%d with every count 0..length+2 (both branches: max length <= 20 and > 20), broadcast shapes; enumerate_vocab_sequences V in 1..4, lengths 0..6/%d/%d/%d; "
+                          "enumerate_binary_sequences; enumerate_binary_sequences_with_cardinality int form length 0..%d x count 0..length+1, tensor form every (length<=%d, count) + %d random ragged batches" % (
+                              30 if q else 66, 8 if q else 12, 5 if q else 7, 4 if q else 5, 9 if q else 13, 6 if q else 9, 300 if q else 3000),
+                    text="binomial_coefficient == math.comb (0 when count > length); the enumerations return every sequence of the support exactly once, in the documented prefix order; tensor form: binom and the valid block per element",
+                    chunk=8, functions=["_combinatorics.binomial_coefficient", "_combinatorics.enumerate_vocab_sequences", "_combinatorics.enumerate_binary_sequences", "_combinatorics.enumerate_binary_sequences_with_cardinality"])
     ctx.replay_known_witnesses()
+    ctx.not_applicable.append(
+        "C19: sample spaces beyond 9 points / 3 Monte Carlo samples and parameters off the stated grids (+ seeded random cases in the thorough tier) are not enumerated; quadrature means of the relaxation-based "
+        "estimators for GumbelOneHotCategorical with more than 2 categories or M > 1 (no product rule is exact across the arg-max regions; the pointwise identities of C19.gumbel.* cover V <= 4); "
+        "the variance-minimising branch of RelaxEstimator (proposal_params/cv_params: it only attaches gradients to control-variate parameters, which the property does not speak about); "
+        "ReparameterizationEstimator (continuous proposals, not in the property); SequentialLanguageModelDistribution (its support/normalisation clauses live in C07); CUDA devices; "
+        "the shape of the returned estimate (the log-space DirectEstimator returns (1,)+batch_shape, its documentation says batch_shape: reported, not part of the property)")
+    ctx.assume("the control variate's mean cv_mean is E_theta[c(b)] supplied as a differentiable function of the proposal's parameters (or c is constant): with a detached mean of a b-dependent control variate the gradient "
+               "lacks the term grad E[c] and no unbiasedness is promised",
+               "log space: the unbiased quantity is exp(returned value) (documented: the log of the estimate is biased); control variates in log space are chosen with f - c + mu > 0",
+               "importance sampling: the proposal gives positive probability to every point of the space (dominates the density)",
+               "float64 parameters, closed forms in Python floats, tolerance 1e-9*(1+|x|); quadrature tolerances as stated per rule (measured error of the rule on the unchanged tree: >= 5x smaller for LogisticBernoulli, >= 2x smaller for the Gumbel rule)",
+               "torch.rand/torch.rand_like return values in [0, 1-2^-24] (float32) / [0, 1-2^-53] (float64); torch.bernoulli(p) returns 0 or 1, 1 if p = 1, 0 if p = 0",
+               "parameters strictly inside their domain for the estimator clauses (probabilities 0/1 only in the support and threshold clauses)", "CPU tensors only")
